@@ -104,6 +104,20 @@ struct Seeds {
             t.pal = {{"in", ykc::P8() + A(1)}, {"in2", ykc::P8() + A(5)}, {"in3", ykc::P8() + A(8)}, {"inL", ykc::P8() + A(9)}, {"new", ykc::P8() + "9"}};
             shapes.push_back(t);
         }
+        for (int r : {7, 8, 9}) {
+            // full border whose rank-r entry is a link; the palette holds the 8-byte key with the same slice (tuples (S,8) / (S,9))
+            ykc::Shape s;
+            s.name = "B15LINK" + std::to_string(r);
+            for (int i = 0; i < 15; ++i) {
+                char buf[16];
+                snprintf(buf, sizeof(buf), "kkkkkk%02d", i);
+                s.inserts.push_back(i == r ? std::string(buf) + "tail" : std::string(buf));
+            }
+            char buf[16];
+            snprintf(buf, sizeof(buf), "kkkkkk%02d", r);
+            s.pal = {{"new", std::string(buf)}, {"inL", std::string(buf) + "tail"}, {"newL", std::string(buf) + "t"}, {"in", "kkkkkk00"}, {"new2", "kkkkkk99"}};
+            shapes.push_back(s);
+        }
         // drained variants: all keys removed again in ascending / descending / middle-out order
         std::vector<ykc::Shape> drained;
         for (auto& sh : shapes) {
